@@ -363,6 +363,11 @@ pub fn profile(prop: &str, tier: &str) -> Profile {
                 (K::Close, 1),
                 (K::DropH, 2),
                 (K::Yield, 3),
+                // what the other receive variants leave behind is what the next drain finds
+                (K::TryRecvRt, 2),
+                (K::TryRecv, 1),
+                (K::RecvTimeout, 1),
+                (K::StreamNext, 1),
             ]),
             caps: vec![Cap::N(0), Cap::N(1), Cap::N(2), Cap::N(3), Cap::Unbounded],
             pays: vec![Pay::P1, Pay::P4, Pay::P8, Pay::P16, Pay::P40, Pay::PR, Pay::Z0, Pay::U32, Pay::U64, Pay::PBIG],
